@@ -1213,6 +1213,20 @@ func loadViewFromLTSVFile(ctx context.Context, flags *option.Flags, fp *file.Rea
 	return view, nil
 }
 
+// estimatedRecordSetCap extrapolates the number of records in a file from the bytes that the first
+// records have taken. Every record takes at least one byte of the file, so the file size is the upper limit
+// however little data the first records hold.
+func estimatedRecordSetCap(fileSize int64, pos int) int {
+	l := (float64(fileSize) / float64(pos)) * fileLoadingPreparedRecordSetCap * 1.2
+	if float64(fileSize) < l {
+		l = float64(fileSize)
+	}
+	if l < fileLoadingPreparedRecordSetCap {
+		return fileLoadingPreparedRecordSetCap
+	}
+	return int(l)
+}
+
 func readRecordSet(ctx context.Context, reader RecordReader, fileSize int64) (RecordSet, error) {
 	var err error
 	recordSet := make(RecordSet, 0, fileLoadingPreparedRecordSetCap)
@@ -1250,7 +1264,7 @@ func readRecordSet(ctx context.Context, reader RecordReader, fileSize int64) (Re
 			}
 
 			if 0 < fileSize && len(recordSet) == fileLoadingPreparedRecordSetCap && 0 < pos && int64(pos) < fileSize {
-				l := int((float64(fileSize) / float64(pos)) * fileLoadingPreparedRecordSetCap * 1.2)
+				l := estimatedRecordSetCap(fileSize, pos)
 				newSet := make(RecordSet, fileLoadingPreparedRecordSetCap, l)
 				copy(newSet, recordSet)
 				recordSet = newSet
@@ -1391,7 +1405,7 @@ func loadViewFromJsonLinesFile(ctx context.Context, flags *option.Flags, fp *fil
 			}
 
 			if 0 < fileSize && len(objectList) == fileLoadingPreparedRecordSetCap && 0 < pos && int64(pos) < fileSize {
-				l := int((float64(fileSize) / float64(pos)) * fileLoadingPreparedRecordSetCap * 1.2)
+				l := estimatedRecordSetCap(fileSize, pos)
 				newSet := make([]txjson.Object, fileLoadingPreparedRecordSetCap, l)
 				copy(newSet, objectList)
 				objectList = newSet
